@@ -142,8 +142,12 @@ class C17(Prop):
                         r[2], r[3] = pos + 1, pos + n_
                     pos += n_
             ptx, _ = P.gen_pretext(rng, inp, "edit", tagger=multi_tagger)
-            yield {"gen": "cli", "kind": "cli", "input": inp, "pretext": ptx, "seq_seed": rng.randrange(10**6),
-                   "seed3": rng.randrange(1, 10**6)}
+            # every second case with Windows line ends and an index buffer of exactly one line + CR: a reader
+            # that takes the file in buffer-sized pieces then sees the CR and the LF in different pieces
+            crlf = i % 2 == 1
+            yield {"gen": "cli" + ("/crlf" if crlf else ""), "kind": "cli", "input": inp, "pretext": ptx,
+                   "seq_seed": rng.randrange(10**6), "seed3": rng.randrange(1, 10**6), "crlf": crlf,
+                   "buf": 61 if crlf else 97}
         for i in range(3 if tier == "quick" else 30):
             inp, ptx = gen_ties(rng)
             yield {"gen": "ties", "kind": "ties", "input": inp, "pretext": ptx, "prefix": "SUPER_", "junk": rng.randrange(10**6)}
@@ -176,7 +180,7 @@ class C17(Prop):
         al = ("".join(r.choices("ACGT", k=60)) + "".join(r.choices("ACGT", k=35)) + "N" * 25 + "".join(r.choices("ACGT", k=60))
               + "N" * 60 + "".join(r.choices("ACGT", k=50)) + "N" * 10 + "".join(r.choices("ACGT", k=17)))
         lines.append(">aligned_runs\n" + "".join(al[i : i + 60] + "\n" for i in range(0, len(al), 60)))
-        (d / "in.fa").write_text("".join(lines))
+        (d / "in.fa").write_bytes("".join(lines).replace("\n", "\r\n" if case.get("crlf") else "\n").encode())
         ptx = case["pretext"]
         out = ["##agp-version\t2.1", f"# HiC MAP RESOLUTION: {ptx['bpt']} bp/texel"]
         for sc in ptx["scaffolds"]:
